@@ -35,8 +35,8 @@ PROBES = ["state_with_ties", "state_best_differs_from_worst", "greedy_checked", 
           "largest_checked", "random_checked", "expected_greedy", "expected_greedy_randomised",
           "state_after_unstep", "several_sampled_games"]
 TIERS = {
-    "quick": {"runs": 2500, "wall": 50, "batch": 4, "shrink_s": 40},
-    "thorough": {"runs": 200000, "wall": 1200, "batch": 8, "shrink_s": 150},
+    "quick": {"runs": 4000, "wall": 40, "batch": 4, "shrink_s": 40},
+    "thorough": {"runs": 800000, "wall": 1200, "batch": 8, "shrink_s": 150},
 }
 KEYS = {"SA": ["noisy_factory", "noisy_factory_square", "graph_random", "factory", "graph_ws_connected", "graph"],
         "SAM": ["xos", "xs", "oxs", "covg_fn_generator", "xos12"]}
